@@ -24,6 +24,7 @@ import Flowjaxv.Driver.NetGen
 import Flowjaxv.Driver.Planar
 import Flowjaxv.Driver.BnafLd
 import Flowjaxv.Driver.BnafGen
+import Flowjaxv.Driver.BnafInitGen
 import Flowjaxv.Driver.ElboAd
 import Flowjaxv.Driver.Flows
 import Flowjaxv.Driver.TrainGen
@@ -164,6 +165,7 @@ def dispatch (line : String) : String :=
       | "gbnafild" => gbnafild args
       | "gbnaft" => gbnaft args
       | "gbnaflj" => gbnaflj args
+      | "gbnafinit" => gbnafinit args
       | "gactlj" => gactlj args
       | "bnafild" => bnafild args
       | "bnaflj" => bnaflj args
